@@ -1,4 +1,5 @@
 import Driver.Arith
+import Driver.Activation
 /-! Line-protocol driver: one request per line on stdin, one reply per line on stdout.
 Stateless components are dispatched on the first token. A stateful component `X` adds a field
 `x : Driver.X.St := Driver.X.St.init` to `DState`, resets it on `begin x …` and threads it through
@@ -12,6 +13,7 @@ structure DState where
 def step (st : DState) (line : String) : DState × String :=
   match line.trimAscii.toString.splitOn " " with
   | "arith" :: r => (st, Arith.handle r)
+  | "activation" :: r => (st, Activation.handle r)
   | _ => (st, "bad-op")
 
 partial def loop (hin hout : IO.FS.Stream) (st : DState) : IO Unit := do
